@@ -19,10 +19,15 @@ func checkC01(c *Ctx, r *Report) {
 	r.Explanation = "Writer side (LALR.CheckAndResolveConflict / GenTable): a REDUCE action's index is the arithmetic negation of the rule number, a SHIFT action's the target state; the cell is that index, the accept code for index 0, the pre-filled error code for ERROR. Reader side (every Go skeleton's driver, the TypeScript driver by tokens): error/accept codes are tested before the sign test, positive → push with state = a, otherwise ReduceFunc(−a) with exactly one negation. Reduce discipline from the builders' shapes and the skeleton: case i pushes LeftPart.ID of rule i, window and pop count are len(RighPart) of the same rule, the goto lookup is made on the top re-read after ReduceFunc with the reduced symbol, its result becomes the pushed state. Rule numbering: one rule inserted before the loop over the user's rules and one per iteration unconditionally; GetRules(i−1) everywhere. Symbol numbering: ID = position in G.Symbols = table column. Not decided: that automaton and lookaheads are right (C09, C03), conflicts, the user's lexer and actions, any particular input."
 	r.Assumptions = append(r.Assumptions, "the automaton is canonical and the lookaheads are LALR(1) (C09, C03)", "the table reaches the generated parser unchanged (C02, C05)")
 	st := c.GetStaged()
+	stagedErrors(r, "C01", st)
 	c01a(c, r, st)
 	c01b(c, r, st)
 	c01c(c, r, st)
 	c01d(c, r)
+	// C01.e prerequisites, evaluated here as well: a wrong goto target or a duplicate/missing state (C09) or a
+	// packed lookup that differs from the dense table (C05) makes the driver perform reductions that are no derivation
+	includePrereq(c, r, "C01.e", checkC09)
+	includePrereq(c, r, "C01.e", checkC05)
 }
 
 func c01a(c *Ctx, r *Report, st *Staged) {
